@@ -62,7 +62,7 @@ CHECKS = [
         "contract-based deductive verification: ast->z3 on the real source, EUF term equality with havoc RNG and Skolemised loop summaries",
         "DESIGN.md C04"),
     chk('C01', 'other',
-        'Engine A proves for all inputs the option/noise plumbing of calc_rdm and calc_rdm_movie (list branch: movie i with EVERY option forwarded; single dataset: frame t = calc_rdm / calc_rdm_unbalanced of time part t of the optionally binned data with every estimator option forwarded, frames stacked by concat and labelled with the time values and the method): in the list branch RDM i is calc_rdm(dataset[i]) with EVERY option forwarded (noise, noise[i]), combined by from_partials/concat; single-dataset dispatch passes each method its options; alphabetical re-sort exactly when a descriptor is given; unknown methods raise. Engine B runs the real calc_rdm on sympy object arrays and proves the euclidean / correlation / mahalanobis (symbolic precision LL^T) / poisson (symbolic prior) formulas on condition means for all real data at small designs incl. unbalanced ones, int and str labels, remove_mean. Movie values, invariances, multi-step sequences, descriptors: bounded oracle tier.',
+        'Callee contract discharged in this run on the real source: get_unique_inverse / get_unique_unsorted return the distinct labels in order of first appearance and, for every entry, the index of its own label (11 obligations; numpy contracts of np.unique(return_index, return_inverse) and argsort assumed). Engine A proves for all inputs the option/noise plumbing of calc_rdm and calc_rdm_movie (list branch: movie i with EVERY option forwarded; single dataset: frame t = calc_rdm / calc_rdm_unbalanced of time part t of the optionally binned data with every estimator option forwarded, frames stacked by concat and labelled with the time values and the method): in the list branch RDM i is calc_rdm(dataset[i]) with EVERY option forwarded (noise, noise[i]), combined by from_partials/concat; single-dataset dispatch passes each method its options; alphabetical re-sort exactly when a descriptor is given; unknown methods raise. Engine B runs the real calc_rdm on sympy object arrays and proves the euclidean / correlation / mahalanobis (symbolic precision LL^T) / poisson (symbolic prior) formulas on condition means for all real data at small designs incl. unbalanced ones, int and str labels, remove_mean. Movie values, invariances, multi-step sequences, descriptors: bounded oracle tier.',
         'estimators, _build_rdms, from_partials, concat, sort_by are uninterpreted in A (own contracts under C10/bounded tier); B: numpy proxy overrides listed in evidence; shapes bounded (stated)',
         'contract-based deductive verification: sidecar contracts on the real functions, ast->z3 VC generation on the real source (re-read every run), external z3 portfolio + symbolic execution of the real functions on sympy arrays (engine B) + bounded run-time oracles',
         'DESIGN.md C01'),
@@ -72,7 +72,7 @@ CHECKS = [
         'symbolic execution of the real functions on sympy object arrays with spec identities decided by normal form (bounded shapes, all real values) + bounded run-time oracles',
         'DESIGN.md C02'),
     chk('C03', 'other',
-        "Engine A proves compare()'s dispatch table (method -> measure, sigma_k forwarded to exactly the whitened/Riemannian measures, unknown -> ValueError) and the (i,j) pairing of _all_combinations for all stack sizes; z3 proves the tau-a counting identity and the clamp lemma; engine B proves the cosine formula and (i,j) placement on symbolic positive stacks. Every measure against its literal definition (rank measures exhaustively over weak orders of <= 5-6 entries, whitened measures against a literal V, Bures via sqrtm), symmetry, range, permutation invariance, input forms: bounded oracle tier.",
+        "Engine B now also proves the correlation formula (cosine of the centred vectors) for all values whose centred vectors do not vanish (the zero-norm branch is decided at a generic point, recorded). Engine A proves compare()'s dispatch table (method -> measure, sigma_k forwarded to exactly the whitened/Riemannian measures, unknown -> ValueError) and the (i,j) pairing of _all_combinations for all stack sizes; z3 proves the tau-a counting identity and the clamp lemma; engine B proves the cosine formula and (i,j) placement on symbolic positive stacks. Every measure against its literal definition (rank measures exhaustively over weak orders of <= 5-6 entries, whitened measures against a literal V, Bures via sqrtm), symmetry, range, permutation invariance, input forms: bounded oracle tier.",
         'compare_* bodies (einsum/eigh/kendall/cg) are not symbolically executed except cosine; scipy internals assumed; bounded tier sizes in evidence',
         'contract-based deductive verification: sidecar contracts on the real functions, ast->z3 VC generation on the real source (re-read every run), external z3 portfolio + engine B + bounded run-time oracles',
         'DESIGN.md C03'),
@@ -82,7 +82,7 @@ CHECKS = [
         'contract-based deductive verification: sidecar contracts on the real functions, ast->z3 VC generation on the real source (re-read every run), external z3 portfolio + z3 lemma layer + bounded run-time oracles',
         'DESIGN.md C06'),
     chk('C07', 'other',
-        'Engine A proves the leave-one-group-out dataflow of boot_noise_ceiling (fold i compares group i with pool_rdm of the OTHER groups / of all) and of cv_noise_ceiling (pooled ceil_set[f] resp. all RDMs at the test conditions vs test_f), both plain means over folds, for all inputs; _nan_rank_data (rank pooling for spearman / rho-a: ranks among the non-missing entries, missing stay missing). Lean 4 + Mathlib lemma pooled_optimal: for unit vectors the sum direction maximises the mean cosine (hence no candidate beats the pooled RDM under the pooling contract), cos_scale_invariant. Pooling formula, rho-a optimality by exhaustive enumeration of weak orders, lower <= upper, invariances, missing entries: bounded oracle tier.',
+        'Engine B proves, for all real dissimilarities at small shapes and with a commonly missing entry, that both pool_rdm functions return the mean of the data vectors (euclid) resp. of the vectors normalised to unit RMS over their available entries (cosine) -- the pooling contract the Lean lemmas are stated over. Callee contracts discharged here too: the leave-one-out generators (C05) and RDMs.subsample (C09). Engine A proves the leave-one-group-out dataflow of boot_noise_ceiling (fold i compares group i with pool_rdm of the OTHER groups / of all) and of cv_noise_ceiling (pooled ceil_set[f] resp. all RDMs at the test conditions vs test_f), both plain means over folds, for all inputs; _nan_rank_data (rank pooling for spearman / rho-a: ranks among the non-missing entries, missing stay missing). Lean 4 + Mathlib lemma pooled_optimal: for unit vectors the sum direction maximises the mean cosine (hence no candidate beats the pooled RDM under the pooling contract), cos_scale_invariant. Pooling formula, rho-a optimality by exhaustive enumeration of weak orders, lower <= upper, invariances, missing entries: bounded oracle tier.',
         'pool_rdm / compare uninterpreted in A; the Lean lemmas are stated over the pooling contract (mean of normalised vectors), which is checked only by the bounded tier; sets_leave_one_out_rdm contract from C05',
         'contract-based deductive verification: sidecar contracts on the real functions, ast->z3 VC generation on the real source (re-read every run), external z3 portfolio + Lean/Mathlib lemma layer + bounded run-time oracles',
         'DESIGN.md C07'),
@@ -102,7 +102,7 @@ CHECKS = [
         'contract-based deductive verification: ast->z3 VC generation on the real selection helpers and RDMs.subset (filter summaries of conditional loops), z3 lemma layer, + model-based bounded histories',
         'DESIGN.md C10'),
     chk('C11', 'other',
-        'Engine A proves for all inputs that Dataset/TemporalDataset.sort_by gather the measurement rows and every obs descriptor by ONE stable argsort of the key and leave the other descriptors alone, that subset_obs / subset_channel select measurements and the matching descriptors by ONE descriptor selection and pass the rest through, and that split_obs / split_channel (both classes) and split_time return one part per distinct value, part p holding exactly the items whose value is the p-th distinct value, each once, in original order (so the parts PARTITION the split axis), measurements and the split descriptors gathered by that one selection, everything else passed through; bin_time: slice t is the mean over exactly the time points whose value is a member of bins[t]. Merges, conversions, DataFrame round trip, histories against an abstract view with ghost ids: bounded oracle tier.',
+        'Callee contract discharged in this run on the real source: get_unique_inverse / get_unique_unsorted return the distinct labels in order of first appearance and, for every entry, the index of its own label (11 obligations; numpy contracts of np.unique(return_index, return_inverse) and argsort assumed). Engine A proves for all inputs that Dataset/TemporalDataset.sort_by gather the measurement rows and every obs descriptor by ONE stable argsort of the key and leave the other descriptors alone, that subset_obs / subset_channel select measurements and the matching descriptors by ONE descriptor selection and pass the rest through, and that split_obs / split_channel (both classes) and split_time return one part per distinct value, part p holding exactly the items whose value is the p-th distinct value, each once, in original order (so the parts PARTITION the split axis), measurements and the split descriptors gathered by that one selection, everything else passed through; bin_time: slice t is the mean over exactly the time points whose value is a member of bins[t]. Merges, conversions, DataFrame round trip, histories against an abstract view with ghost ids: bounded oracle tier.',
         'num_index / subset_descriptor uninterpreted at these call sites (their bodies are under contract in C10); argsort(kind=stable) assumed; get_unique_inverse / get_unique_unsorted modelled as (distinct values in order of first appearance, position of each value) -- bounded oracle K8; all findings repaired',
         'contract-based deductive verification: sidecar contracts on the real functions, ast->z3 VC generation on the real source (re-read every run), external z3 portfolio + model-based bounded histories',
         'DESIGN.md C11'),
@@ -132,12 +132,12 @@ CHECKS = [
         'z3/Lean lemma layer + engine B + bounded run-time oracles',
         'DESIGN.md C17'),
     chk('C18', 'exploration',
-        'The numerical claim depends on LDL / Cholesky / norm.ppf and random draws: bounded run-time oracles. Deductive part: engine A proves make_design for all sizes (np.kron model): condition of observation t is t mod n_cond, partition t div n_cond, length n_cond*n_part; z3 lemma: hence every condition exactly once per partition.',
+        'Callee contract discharged in this run on the real source: get_unique_inverse / get_unique_unsorted return the distinct labels in order of first appearance and, for every entry, the index of its own label (11 obligations; numpy contracts of np.unique(return_index, return_inverse) and argsort assumed). The numerical claim depends on LDL / Cholesky / norm.ppf and random draws: bounded run-time oracles. Deductive part: engine A proves make_design for all sizes (np.kron model): condition of observation t is t mod n_cond, partition t div n_cond, length n_cond*n_part; z3 lemma: hence every condition exactly once per partition.',
         'scipy.linalg.ldl, norm.ppf, RNG assumed; 1 open finding (vector theta breaks calc_rdm of simulated data)',
         'bounded run-time oracles (stand-in) + ast->z3 obligations on make_design',
         'DESIGN.md C18'),
     chk('C19', 'other',
-        'Lemma layer (z3 NRA/LIA): the per-axis pre-filter removes no member of the open ball; sqrt(s) < r <=> s < r^2 (strictness); the 100 chunk cut points floor(k n/100) are monotone from 0 to n and blocks are disjoint (every row written once). Engine A proves for the unchunked branch of get_searchlight_RDMs that dataset c holds exactly the columns neighbors[c] with the event labels as conditions and that the result is the list-calc_rdm labelled by the centres in order. Exact membership for all volumes up to 4x4x5 / all masks up to 8 voxels, chunked branch, n_jobs order: bounded (partly exhaustive) oracle tier.',
+        'Callee contract discharged in this run on the real source: get_unique_inverse / get_unique_unsorted return the distinct labels in order of first appearance and, for every entry, the index of its own label (11 obligations; numpy contracts of np.unique(return_index, return_inverse) and argsort assumed). Lemma layer (z3 NRA/LIA): the per-axis pre-filter removes no member of the open ball; sqrt(s) < r <=> s < r^2 (strictness); the 100 chunk cut points floor(k n/100) are monotone from 0 to n and blocks are disjoint (every row written once). Engine A proves for the unchunked branch of get_searchlight_RDMs that dataset c holds exactly the columns neighbors[c] with the event labels as conditions and that the result is the list-calc_rdm labelled by the centres in order. Exact membership for all volumes up to 4x4x5 / all masks up to 8 voxels, chunked branch, n_jobs order: bounded (partly exhaustive) oracle tier.',
         'joblib.Parallel ordering is an assumed contract (real worker schedules cannot be explored); cdist / meshgrid models',
         'contract-based deductive verification: sidecar contracts on the real functions, ast->z3 VC generation on the real source (re-read every run), external z3 portfolio + z3 lemma layer + exhaustive small-volume oracles',
         'DESIGN.md C19'),
